@@ -51,13 +51,23 @@ Qed.
 Lemma inclb_incl a b : Check.inclb a b = true -> incl a b.
 Proof. unfold Check.inclb. rewrite forallb_forall. intros H c Hc. apply cmem_In. apply H. exact Hc. Qed.
 
-Lemma ok_header_sound jobs h : ok_header jobs h = true -> HeaderSpec jobs h.
+Lemma ok_header_kind_sound k jobs h : ok_header_kind k jobs h = true ->
+  exists j0, In j0 jobs /\ (forall c, In c h -> c = CPareto \/ In c (header_of k j0)) /\ (forall c, In c (header_of k j0) -> In c h).
 Proof.
-  unfold ok_header, HeaderSpec. intros H. apply existsb_exists in H as [j0 [Hj0 H]].
+  unfold ok_header_kind. intros H. apply existsb_exists in H as [j0 [Hj0 H]].
   apply andb_true_iff in H as [H1 H2]. apply inclb_incl in H1, H2. exists j0. split; [exact Hj0|]. split.
   - intros c Hc. destruct (col_eqb c CPareto) eqn:E; [left; apply col_eqb_eq; exact E|right].
     apply H1. unfold no_pareto. apply filter_In. split; [exact Hc|]. rewrite E. reflexivity.
   - exact H2.
+Qed.
+
+Lemma ok_header_sound jobs h : ok_header jobs h = true -> HeaderSpec jobs h.
+Proof.
+  unfold ok_header, HeaderSpec. intros H. apply orb_true_iff in H as [H|H].
+  - destruct (ok_header_kind_sound _ _ _ H) as (j0 & A & B & C). exists j0, (kind_of jobs). repeat split; try assumption. left. reflexivity.
+  - apply andb_true_iff in H as [H H3]. apply andb_true_iff in H as [H1 H2]. apply Nat.leb_le in H2.
+    destruct (ok_header_kind_sound _ _ _ H3) as (j0 & A & B & C). exists j0, (Vec (length (objcols h))).
+    split; [exact A|]. split; [right; split; [exact H1|eexists; split; [reflexivity|exact H2]]|]. split; assumption.
 Qed.
 
 Lemma ok_pareto_sound h rows : ok_pareto h rows = true -> ParetoSpec h rows.
@@ -247,3 +257,23 @@ Theorem first_call_all_failed_refuted :
   /\ search_pinned w_firstcall = search_fixed w_firstcall
   /\ ok_C04 [wF; wT] [CP 1; CObj; CId; CStatus] [[Num 5; Str 7; Num 0; Str 9]; [Num 6; Empty; Num 1; Str 9]] = false.
 Proof. vm_compute. repeat split; try lia; repeat constructor. Qed.
+
+(* ---------- several searches on ONE evaluator (num_objective survives Search.__init__) ---------- *)
+Definition outcome_spec (jobs : list job) (o : outcome) : Prop :=
+  match o with NoTable => jobs = [] | Raised => False | Table h rows => TableSpec jobs h rows end.
+
+Theorem reused_evaluator evs1 evs2 : Hyps evs1 -> Hyps evs2 -> kind_of (all_jobs evs1) = kind_of (all_jobs evs2) ->
+  exists o1 o2, searches_from infer_fixed None [evs1; evs2] = [o1; o2]
+    /\ outcome_spec (all_jobs evs1) o1 /\ outcome_spec (all_jobs evs2) o2.
+Proof.
+  intros (A1 & A2 & A3 & A4) (B1 & B2 & B3 & B4) Hk. cbn [searches_from].
+  eexists. eexists. split; [reflexivity|]. split.
+  - pose proof (search_fixed_from_spec None evs1 (or_introl eq_refl) A1 A2 A3 A4) as H. cbn zeta in H.
+    unfold search_fixed_from in H. destruct (final (snd (run_from infer_fixed None evs1))); cbn [outcome_spec]; [exact H|exact H|].
+    destruct H as [H _]. exact H.
+  - assert (Hn : weakn (kind_of (all_jobs evs2)) (nobj (fst (run_from infer_fixed None evs1)))).
+    { rewrite <- Hk. apply nobj_after_weak; try assumption. left. reflexivity. }
+    pose proof (search_fixed_from_spec _ evs2 Hn B1 B2 B3 B4) as H. cbn zeta in H.
+    unfold search_fixed_from in H. destruct (final (snd (run_from infer_fixed _ evs2))); cbn [outcome_spec]; [exact H|exact H|].
+    destruct H as [H _]. exact H.
+Qed.
